@@ -5,4 +5,5 @@ META = {
             'the running interpreter\'s builtins, so the check classifies every builtin independently instead of listing forbidden snippets.',
     'note': 'Trusted: the PURE classification in vt/props/c17.py; stub of safeeval.parse_expression (ast.parse is a C boundary) returning template trees; '
             'sys.addaudithook events open/import/os.*/subprocess.*/input/breakpoint as the observable for I/O.',
+    'technique': 'symbolic execution (CrossHair/z3) of the real AST gate on template trees with symbolic identifiers; finite evaluation of the allow-list and of every builtin name through real grammars under an audit hook',
 }
